@@ -5,75 +5,78 @@ import Nstd.Buffer.PropsTr
 namespace Nstd.Buffer
 open C
 
+set_option maxHeartbeats 3000000 in
 /-- `append(const Buffer& data)`, `data` another object with exposed bytes `data` -/
 theorem tr_appendBuf (v w : Nat) (b : Buf) (hb : BInv v b) (L : Ledger) (hl : LiveIn b L) (hbd : Bounded L)
     (data : List Byte) (lo : Bool) (ob : Ptr) (oc : Nat) :
-    (Gen.appendBuf v (objOf b) w (argObj lo data ob oc) (heapOf b L data)).map out = (b.append data 0 L).map outB := by
+    (Gen.appendBuf v (objOf b) w (argObj lo data ob oc) (heapOf b L data)).map out =
+      (b.append data (capOf (Gen.appendBuf v (objOf b) w (argObj lo data ob oc) (heapOf b L data))) L).map outB := by
   obtain ⟨st, s, e, cap⟩ := b
   cases st with
   | own id m =>
     own_setup hb hl hbd
     by_cases h1 : e - s + data.length > cap
     · by_cases h2 : e - s < e - s + data.length
-      · tr_simp [Gen.appendBuf, Gen.resize, Buf.append, Buf.resize, argObj]
+      · tr_simp [Buf.append, Buf.resize, argObj]
       · have h3 : data.length = 0 := by omega
         exfalso; omega
     · have hx : data.length ≤ s + (e - s + data.length) := by omega
-      by_cases h3 : s + (e - s + data.length) ≤ cap <;> tr_simp [Gen.appendBuf, Gen.resize, Buf.append, Buf.resize, argObj]
+      by_cases h3 : s + (e - s + data.length) ≤ cap <;> tr_simp [Buf.append, Buf.resize, argObj]
   | att m =>
     simp only [BInv] at hb
     obtain ⟨rfl, hse, hem⟩ := hb
     have hsm : s ≤ m.length := by omega
     by_cases hd : data = []
     · subst hd
-      by_cases h1 : e - s > 0 <;> tr_simp [Gen.appendBuf, Gen.resize, Buf.append, Buf.resize, argObj]
+      by_cases h1 : e - s > 0 <;> tr_simp [Buf.append, Buf.resize, argObj]
     · have hpos : data.length > 0 := List.length_pos_iff.2 hd
       have h1 : e - s + data.length > 0 := by omega
       have h2 : e - s < e - s + data.length := by omega
-      tr_simp [Gen.appendBuf, Gen.resize, Buf.append, Buf.resize, argObj]
+      tr_simp [Buf.append, Buf.resize, argObj]
   | dflt c =>
     simp only [BInv] at hb
     obtain ⟨rfl, rfl, rfl, rfl⟩ := hb
     by_cases h1 : data.length > 0
-    · tr_simp [Gen.appendBuf, Gen.resize, Buf.append, Buf.resize, argObj]
+    · tr_simp [Buf.append, Buf.resize, argObj]
     · have h4 : data = [] := List.eq_nil_of_length_eq_zero (by omega)
       subst h4
-      tr_simp [Gen.appendBuf, Gen.resize, Buf.append, Buf.resize, argObj]
+      tr_simp [Buf.append, Buf.resize, argObj]
 
-set_option maxHeartbeats 1600000 in
+set_option maxHeartbeats 3000000 in
 /-- `append(data, size)` with `data` outside the object: the copy-first test and `inside` are false, then as `append(const Buffer&)` -/
 theorem tr_append (v t : Nat) (b : Buf) (hb : BInv v b) (L : Ledger) (hl : LiveIn b L) (hbd : Bounded L)
     (data : List Byte) (lo : Bool) :
-    (Gen.append v t (objOf b) (argPtr lo) data.length (heapOf b L data)).map out = (b.append data 0 L).map outB := by
+    (Gen.append v t (objOf b) (argPtr lo) data.length (heapOf b L data)).map out =
+      (b.append data (capOf (Gen.append v t (objOf b) (argPtr lo) data.length (heapOf b L data))) L).map outB := by
   obtain ⟨st, s, e, cap⟩ := b
   cases st with
   | own id m =>
     own_setup hb hl hbd
     by_cases h1 : e - s + data.length > cap
     · by_cases h2 : e - s < e - s + data.length
-      · cases lo <;> (unfold Gen.append; simp only [objOf, argPtr, branch, band, bor, truthy, pge, ple, plt, pgt, prel, padd, bind, pure, val, Option.map, reduceCtorEq, if_false, if_true, decide_true, decide_false, Nat.not_lt_zero, Nat.le_zero_eq, Nat.one_ne_zero, Nat.zero_lt_one, Bool.false_eq_true]; tr_simp [Gen.resize, Buf.append, Buf.resize])
+      · cases lo <;> (unfold Gen.append; simp only [objOf, argPtr, branch, band, bor, truthy, pge, ple, plt, pgt, prel, padd, bind, pure, val, Option.map, reduceCtorEq, if_false, if_true, decide_true, decide_false, Nat.not_lt_zero, Nat.le_zero_eq, Nat.one_ne_zero, Nat.zero_lt_one, Bool.false_eq_true]; tr_simp [Buf.append, Buf.resize])
       · have h3 : data.length = 0 := by omega
         exfalso; omega
     · have hx : data.length ≤ s + (e - s + data.length) := by omega
-      by_cases h3 : s + (e - s + data.length) ≤ cap <;> cases lo <;> (unfold Gen.append; simp only [objOf, argPtr, branch, band, bor, truthy, pge, ple, plt, pgt, prel, padd, bind, pure, val, Option.map, reduceCtorEq, if_false, if_true, decide_true, decide_false, Nat.not_lt_zero, Nat.le_zero_eq, Nat.one_ne_zero, Nat.zero_lt_one, Bool.false_eq_true]; tr_simp [Gen.resize, Buf.append, Buf.resize])
+      by_cases h3 : s + (e - s + data.length) ≤ cap <;> cases lo <;> (unfold Gen.append; simp only [objOf, argPtr, branch, band, bor, truthy, pge, ple, plt, pgt, prel, padd, bind, pure, val, Option.map, reduceCtorEq, if_false, if_true, decide_true, decide_false, Nat.not_lt_zero, Nat.le_zero_eq, Nat.one_ne_zero, Nat.zero_lt_one, Bool.false_eq_true]; tr_simp [Buf.append, Buf.resize])
   | att m =>
     simp only [BInv] at hb
     obtain ⟨rfl, hse, hem⟩ := hb
     have hsm : s ≤ m.length := by omega
     by_cases hd : data = []
     · subst hd
-      by_cases h1 : e - s > 0 <;> cases lo <;> (unfold Gen.append; simp only [objOf, argPtr, branch, band, bor, truthy, pge, ple, plt, pgt, prel, padd, bind, pure, val, Option.map, reduceCtorEq, if_false, if_true, decide_true, decide_false, Nat.not_lt_zero, Nat.le_zero_eq, Nat.one_ne_zero, Nat.zero_lt_one, Bool.false_eq_true]; tr_simp [Gen.resize, Buf.append, Buf.resize])
+      by_cases h1 : e - s > 0 <;> cases lo <;> (unfold Gen.append; simp only [objOf, argPtr, branch, band, bor, truthy, pge, ple, plt, pgt, prel, padd, bind, pure, val, Option.map, reduceCtorEq, if_false, if_true, decide_true, decide_false, Nat.not_lt_zero, Nat.le_zero_eq, Nat.one_ne_zero, Nat.zero_lt_one, Bool.false_eq_true]; tr_simp [Buf.append, Buf.resize])
     · have hpos : data.length > 0 := List.length_pos_iff.2 hd
       have h1 : e - s + data.length > 0 := by omega
       have h2 : e - s < e - s + data.length := by omega
-      cases lo <;> (unfold Gen.append; simp only [objOf, argPtr, branch, band, bor, truthy, pge, ple, plt, pgt, prel, padd, bind, pure, val, Option.map, reduceCtorEq, if_false, if_true, decide_true, decide_false, Nat.not_lt_zero, Nat.le_zero_eq, Nat.one_ne_zero, Nat.zero_lt_one, Bool.false_eq_true]; tr_simp [Gen.resize, Buf.append, Buf.resize])
+      cases lo <;> (unfold Gen.append; simp only [objOf, argPtr, branch, band, bor, truthy, pge, ple, plt, pgt, prel, padd, bind, pure, val, Option.map, reduceCtorEq, if_false, if_true, decide_true, decide_false, Nat.not_lt_zero, Nat.le_zero_eq, Nat.one_ne_zero, Nat.zero_lt_one, Bool.false_eq_true]; tr_simp [Buf.append, Buf.resize])
   | dflt c =>
     simp only [BInv] at hb
     obtain ⟨rfl, rfl, rfl, rfl⟩ := hb
     by_cases h1 : data.length > 0
-    · cases lo <;> (unfold Gen.append; simp only [objOf, argPtr, branch, band, bor, truthy, pge, ple, plt, pgt, prel, padd, bind, pure, val, Option.map, reduceCtorEq, if_false, if_true, decide_true, decide_false, Nat.not_lt_zero, Nat.le_zero_eq, Nat.one_ne_zero, Nat.zero_lt_one, Bool.false_eq_true]; tr_simp [Gen.resize, Buf.append, Buf.resize])
+    · cases lo <;> (unfold Gen.append; simp only [objOf, argPtr, branch, band, bor, truthy, pge, ple, plt, pgt, prel, padd, bind, pure, val, Option.map, reduceCtorEq, if_false, if_true, decide_true, decide_false, Nat.not_lt_zero, Nat.le_zero_eq, Nat.one_ne_zero, Nat.zero_lt_one, Bool.false_eq_true]; tr_simp [Buf.append, Buf.resize])
     · have h4 : data = [] := List.eq_nil_of_length_eq_zero (by omega)
       subst h4
-      cases lo <;> (unfold Gen.append; simp only [objOf, argPtr, branch, band, bor, truthy, pge, ple, plt, pgt, prel, padd, bind, pure, val, Option.map, reduceCtorEq, if_false, if_true, decide_true, decide_false, Nat.not_lt_zero, Nat.le_zero_eq, Nat.one_ne_zero, Nat.zero_lt_one, Bool.false_eq_true]; tr_simp [Gen.resize, Buf.append, Buf.resize])
+      cases lo <;> (unfold Gen.append; simp only [objOf, argPtr, branch, band, bor, truthy, pge, ple, plt, pgt, prel, padd, bind, pure, val, Option.map, reduceCtorEq, if_false, if_true, decide_true, decide_false, Nat.not_lt_zero, Nat.le_zero_eq, Nat.one_ne_zero, Nat.zero_lt_one, Bool.false_eq_true]; tr_simp [Buf.append, Buf.resize])
 
 end Nstd.Buffer
